@@ -267,7 +267,18 @@ def run(rep, tier):
     nexts = vpl.calls_named(r"Iterator::next$")
     loop_of = [n for n in nexts if vcl and vpl.dominates(n.block, vcl[0].block) and vpl.can_reach([vcl[0].block], [n.block])]
     over_clauses = bool(loop_of) and "clauses" in vpl.slice_fields(loop_of[0].args[0], through=lambda ev: ev.callee in core.TRANSPARENT or "into_iter" in (ev.callee or "") or "::iter" in (ev.callee or ""))
-    rep.ob("R16.3", "every-clause|validate_plan", bool(vcl) and over_clauses and bool(errs) and not any(vpl.reachable_from([t]) & set(okret) for t in errs) and vpl.must_pass([n.block for n in loop_of], okret),
+    # the loop may be written as `clauses.iter().try_for_each(validate_clause)?`: the validator is handed over as a fn item to an
+    # adaptor that visits every element and stops at the first error, and that error must be obeyed
+    tfe = [e for e in vpl.calls_named(r"Iterator>?::try_for_each$") if any(
+        ((a.get("k") or {}).get("fn") or {}).get("path", "").endswith("kml::validate_clause") for a in e.args if isinstance(a, dict))
+        and "clauses" in vpl.slice_fields(e.args[0], through=lambda ev: ev.callee in core.TRANSPARENT or "into_iter" in (ev.callee or "") or "::iter" in (ev.callee or ""))]
+    tfe_ok = False
+    for e in tfe:
+        src_ = e.dest.l
+        errs_ = [m_[k_] for (_, adt_, m_) in vpl.outcome_edges(src_) for k_ in ("Err", "Break") if k_ in m_]
+        if errs_ and not any(vpl.reachable_from([t]) & set(okret) for t in errs_) and vpl.must_pass([e.block], okret):
+            tfe_ok = True
+    rep.ob("R16.3", "every-clause|validate_plan", tfe_ok or (bool(vcl) and over_clauses and bool(errs) and not any(vpl.reachable_from([t]) & set(okret) for t in errs) and vpl.must_pass([n.block for n in loop_of], okret)),
            "validate_clause runs in a loop over statement.clauses that every Ok return passes, and its error is obeyed", vpl.file + ":%d" % vpl.line)
     rep.ob("R16.3", "handles|validate_plan", bool(vpl.calls_named(r"KipError::duplicate_local_handle$")) and bool(vpl.calls_named(r"KipError::reference_error$")) and bool(vpl.calls_named(r"kml::collect_clause_handles$")),
            "validate_plan refuses a handle bound twice and a handle that is never bound", vpl.file + ":%d" % vpl.line)
